@@ -563,7 +563,7 @@ func judge(in *caseIn, e *expectation, sub0, adm obj) (observed string, diffs []
 			vs = append(vs, verdict{"c08:not-unchanged:" + tag + ":" + e.Reason,
 				fmt.Sprintf("%s: expected admitted unchanged (%s) but the handler changed %s", tag, e.Reason, d)})
 		} else {
-			vs = append(vs, verdict{"c08:frame:" + tag + ":" + e.Class + ":" + d,
+			vs = append(vs, verdict{"c08:frame:" + tag + ":" + d,
 				fmt.Sprintf("%s: frame condition broken: admitted object differs from the submitted one at %s (expected class %s)", tag, d, e.Class)})
 		}
 	}
